@@ -5,6 +5,7 @@ import (
 	"io/ioutil"
 	"os"
 	"os/exec"
+	"path"
 	"sort"
 	"strings"
 )
@@ -113,7 +114,20 @@ func runSmAddfiles(c Case) interface{} {
 	for i, s := range unhxs(c["recipe_scripts"]) {
 		recipe = append(recipe, "addfiles "+write("r"+string(rune('0'+i)), strings.Split(s, "\n")))
 	}
-	args := []string{"-root", root, "-list", "stage", "-files"}
+	spelt := root
+	switch int(num(c["rootspell"])) {
+	case 1:
+		spelt = root + "/"
+	case 2:
+		spelt = "." // the command runs in the build root
+	case 3:
+		spelt = "../" + path.Base(root) + "/."
+	case 4:
+		spelt = root + "//etc/.."
+	case 5:
+		spelt = path.Dir(root) + "/./" + path.Base(root)
+	}
+	args := []string{"-root", spelt, "-list", "stage", "-files"}
 	if len(recipe) > 0 {
 		args = append(args, "-recipe", write("recipe", recipe))
 	}
@@ -170,7 +184,8 @@ func init() {
 				for i := 0; i < ns; i++ {
 					ss = append(ss, script(5+i))
 				}
-				emit(Case{"op": "sm.addfiles", "recipe_scripts": hxs(rs), "switch_scripts": hxs(ss)})
+				// the build root spelt in different ways: all mean the same directory
+				emit(Case{"op": "sm.addfiles", "recipe_scripts": hxs(rs), "switch_scripts": hxs(ss), "rootspell": g.Intn(6)})
 			}
 		}
 	})
